@@ -513,8 +513,10 @@ def interpolate_ntv2(grid_object, lat, lon, method='bicubic'):
         raise ValueError(f'interpolation method "{method}" not supported')
 
     # convert decimal degrees to arc-seconds
-    lat *= 3600
-    lon *= -3600
+    # (new values, not in-place products: lat / lon may be numpy arrays that
+    # belong to the caller)
+    lat = lat * 3600
+    lon = lon * -3600
 
     # determine subgrid for point of interest
     in_subgrids = set()
